@@ -469,8 +469,18 @@ class SimCtl:
         self.obs = []
         old = self.worker()
         c = self.conc
-        repl = SingleReplication("rep", c.at(0), c.t(self.warm_t), c.t(self.end_t))
+        # every replication is a fresh Replication object with its own start time (spec time k of replication r is the
+        # real time T(off_r + k)): nothing of an earlier replication's run control may survive a re-initialisation
+        if not hasattr(c, "base_off"):
+            c.base_off, self.n_init = c.off, 0
+        prev_off = c.off
+        c.off = c.base_off + (0, 2, -1, 5)[self.n_init % 4]
+        repl = SingleReplication(f"rep{self.n_init}", c.at(0), c.t(self.warm_t), c.t(self.end_t))
         e = self._call("Initialize", lambda: self.sim.initialize(self.model, repl), {"a": "Initialize", "ops": self.init_ops or []})
+        if e["res"] == "ok":
+            self.n_init += 1
+        else:
+            c.off = prev_off
         if e["res"] == "ok" and self.use_initial_method and not self._init_rest_done:
             self.errors.append("initial_method_skipped: the method registered with add_initial_method was not executed by this initialize()")
         if e["res"] == "ok":
